@@ -23,7 +23,7 @@ private theorem goCopy_full' (p q : Bytes) (h : q.length = p.length) : goCopy p 
 
 /-- the payload-read segment = the first half of `Reader.dataFrame` (no panic: `Pool.cap_ge`) -/
 theorem readMessage_payload_eq (fh rest : Bytes) (n : Nat) (maskOn : Bool) :
-    Trans.Conn_readMessage_payload fh rest (n : Int) maskOn =
+    Trans.Conn_readMessage_payload (c_fh := fh) (c_br := rest) (contentLength := (n : Int)) (maskEnabled := maskOn) =
       if rest.length < n then .error (rest, some GoErr.io)
       else .ok (rest.drop n, Trans.frameHeader_GetFIN fh,
         if maskOn then goMaskXOR (rest.take n) (Trans.frameHeader_GetMaskKey fh) else rest.take n) := by
@@ -103,7 +103,8 @@ def readMessageT (cfg : Reader.Cfg) (codec : Codec) (st : Reader.State) (fh : By
   match Trans.frameHeader_Parse fh b with
   | (_, _, _, some _) => .stop [] Reader.ioErr
   | (fh', rest, len, none) =>
-    match Trans.Conn_readMessage_header cfg.readMax fh' cfg.pdEnabled cfg.isServer len toControl with
+    match Trans.Conn_readMessage_header (c_config_ReadMaxPayloadSize := cfg.readMax) (c_fh := fh') (c_pd_Enabled := cfg.pdEnabled)
+        (c_isServer := cfg.isServer) (contentLength := len) (readControlResult := toControl) with
     | .error e =>
       if e = toControl then
         -- `return c.readControl()`
@@ -113,12 +114,15 @@ def readMessageT (cfg : Reader.Cfg) (codec : Codec) (st : Reader.State) (fh : By
       else if e = some (.status 1009) then .stop [] Reader.tooLarge
       else .stop [] Reader.protoErr
     | .ok (opcode, maskEnabled, compressed) =>
-      match Trans.Conn_readMessage_payload fh' rest len maskEnabled with
+      match Trans.Conn_readMessage_payload (c_fh := fh') (c_br := rest) (contentLength := len) (maskEnabled := maskEnabled) with
       | .error _ => .stop [] Reader.ioErr
       | .ok (rest', fin, p) =>
         interp cfg codec st rest'
-          (Trans.Conn_readMessage_afterPayload Decision.ret Decision.emit st.cont.initialized st.cont.compressed
-            (UInt8.ofNat st.cont.opcode) st.cont.buffer cfg.readMax opcode fin p p compressed)
+          (Trans.Conn_readMessage_afterPayload Decision.ret Decision.emit
+            (c_continuationFrame_initialized := st.cont.initialized) (c_continuationFrame_compressed := st.cont.compressed)
+            (c_continuationFrame_opcode := UInt8.ofNat st.cont.opcode) (c_continuationFrame_buffer := st.cont.buffer)
+            (c_config_ReadMaxPayloadSize := cfg.readMax) (opcode := opcode) (fin := fin) (p := p) (buf := p)
+            (compressed := compressed))
 
 /-- the composition of the translated segments of `readMessage` is `Reader.step`, for every input, configuration and
 connection state (the continuation state holds an opcode the code stored, i.e. a byte; the header array has its 14 bytes) -/
